@@ -248,9 +248,11 @@ def run(prog, ctx):
                     if comp:
                         body = comp[0][2]
                         eq = ("cmp", "Eq", ("bv", "$0"), ("bv", "$1"))
-                        good_body = body in (("ifexp", eq, ("c", "0"), ("c", "1")),
-                                             ("ifexp", ("cmp", "NotEq", ("bv", "$0"), ("bv", "$1")), ("c", "1"), ("c", "0")),
-                                             ("cmp", "NotEq", ("bv", "$0"), ("bv", "$1")))
+                        neq = ("cmp", "NotEq", ("bv", "$0"), ("bv", "$1"))
+                        ifs_ = comp[0][3][0][2] if comp[0][3] else ()
+                        good_body = (body in (("ifexp", eq, ("c", "0"), ("c", "1")), ("ifexp", neq, ("c", "1"), ("c", "0")), neq,
+                                              ("ifexp", ("not", eq), ("c", "1"), ("c", "0"))) and not ifs_) or \
+                                    (body == ("c", "1") and ifs_ in ((("not", eq),), (neq,)))     # sum(1 for ... if mismatch)
                         if not good_body:
                             ok = False
                             why = why or "per-sample term %s does not count mismatches" % show(body)
